@@ -550,22 +550,30 @@ Section Files.
 
   Lemma new_parser_all (P : list ev -> Prop) run :
     (forall e, P [EErr e]) -> (forall cf fuel p toks rerr, P (run cf fuel p toks rerr)) ->
+    (forall evs e, P evs -> failed evs = false -> P (evs ++ [EErr e])) ->
     sub_all P (new_parser run).
   Proof.
-    intros H1 H2 cf origin dt toks rerr. unfold Zone.new_parser.
-    destruct (match _ with [] => false | _ => _ end); [apply H1|apply H2].
+    intros H1 H2 H3 cf origin dt toks rerr. unfold Zone.new_parser.
+    destruct (match _ with [] => false | _ => _ end); [apply H1|]. cbv zeta.
+    destruct (failed _) eqn:F; [apply H2|].
+    destruct (lex_err_tok toks) as [t|]; [apply H3; [apply H2|exact F]|apply H2].
+  Qed.
+
+  Lemma stops_last_snoc_err evs e : stops_last evs -> failed evs = false -> stops_last (evs ++ [EErr e]).
+  Proof.
+    intros _ F. apply stops_last_app; [now apply failed_false|apply stops_last_one].
   Qed.
 
   Lemma run_d_stops d : sub_all stops_last (run_d d).
   Proof.
     induction d as [|d IH]; cbn [Zone.run_d]; cbv zeta.
-    - apply new_parser_all; [intro; apply stops_last_one|].
+    - apply new_parser_all; [intro; apply stops_last_one| |intros ? ?; apply stops_last_snoc_err].
       apply level_stops; [intros sub E; discriminate|].
-      apply new_parser_all; [intro; apply stops_last_one|].
+      apply new_parser_all; [intro; apply stops_last_one| |intros ? ?; apply stops_last_snoc_err].
       apply level_stops; [intros sub E; discriminate|]. intros ? ? ? ? ?. apply stops_last_nil.
-    - apply new_parser_all; [intro; apply stops_last_one|].
+    - apply new_parser_all; [intro; apply stops_last_one| |intros ? ?; apply stops_last_snoc_err].
       apply level_stops; [intros sub E; injection E as <-; exact IH|].
-      apply new_parser_all; [intro; apply stops_last_one|].
+      apply new_parser_all; [intro; apply stops_last_one| |intros ? ?; apply stops_last_snoc_err].
       apply level_stops; [intros sub E; injection E as <-; exact IH|].
       intros ? ? ? ? ?. apply stops_last_nil.
   Qed.
@@ -675,7 +683,14 @@ Section Files.
     intros H cf origin dt toks rerr Hd Hl Hr. unfold Zone.new_parser.
     destruct (match _ with [] => false | _ => _ end).
     - constructor; [|constructor]. left. left. reflexivity.
-    - apply H; auto.
+    - cbv zeta. destruct (failed _); [apply H; auto|].
+      destruct (lex_err_tok toks) as [t|] eqn:E; [|apply H; auto].
+      apply Forall_app. split; [apply H; auto|].
+      constructor; [|constructor]. right. cbn.
+      eapply lines_in; [exact Hl|]. unfold lex_err_tok in E.
+      destruct (rev toks) as [|u r] eqn:R; [discriminate|].
+      destruct (t_err u); [|discriminate]. injection E as <-.
+      apply in_rev. rewrite R. now left.
   Qed.
 
   Lemma run_d_good d : sub_good d (run_d d).
